@@ -162,7 +162,7 @@ class SmtpSession(object):
 
     def RCPT(self, reply, address, params):
         self._call_validator('rcpt', reply, address, params)
-        if reply.code == '250':
+        if reply.code in ('250', '251'):
             assert self.envelope is not None
             self.envelope.recipients.append(address)
 
